@@ -615,7 +615,7 @@ def roRestsOk (w : World) (r : StepResult) : Bool := roStepOk w false r.roGone
     an explicitly listed waiting class (spec.paused; manual pause; disabled; `StepUpgrade` waiting for the BatchRelease's
     report; waiting for the workload; terminal Healthy; deleted and cleaned up), unless its status is one no controller
     writes (`roIllFormed`).  No class is "nothing will ever happen": see `ro_class_wakeable`. -/
-theorem ro_waits_only_for_wakeable (w : World) (r : StepResult) (h : reconcile w = .val r)
+theorem ro_waits_only_for_wakeable_core (w : World) (r : StepResult) (h : reconcileCore w = .val r)
     (hq : (roWakes w r).ro = false) : roRestsOk w r = true := by
   unfold roWakes wakesOf at hq
   simp only [Bool.true_and, Bool.or_eq_false_iff, List.any_eq_false] at hq
@@ -640,7 +640,7 @@ theorem ro_waits_only_for_wakeable (w : World) (r : StepResult) (h : reconcile w
   -- the rolling case is `inRolling_quiet`
   by_cases hroll : w.ro.phase = .progressing ∧ w.ro.reason = .inRolling ∧ ∃ wl os, w.wl = some wl ∧ wl.consistent = true ∧ w.ro.sub = some os
   · obtain ⟨hph, hr, wl, os, hwl, hc, hos⟩ := hroll
-    obtain ⟨ns, s, hsame, hs, hcore, hreason, hrec⟩ := reconcile_inRolling w wl os hph hr hwl hc hos
+    obtain ⟨ns, s, hsame, hs, hcore, hreason, hrec⟩ := reconcile_inRolling_core w wl os hph hr hwl hc hos
     rw [hrec] at h
     cases hin : inRolling w w.ro ns s wl with
     | panic => rw [hin] at h; cases h
@@ -682,7 +682,7 @@ theorem ro_waits_only_for_wakeable (w : World) (r : StepResult) (h : reconcile w
       simp only [Out.val.injEq] at hh
       subst hh
       exact ⟨rfl, rfl, rfl⟩
-    unfold reconcile at h
+    unfold reconcileCore at h
     dsimp only at h
     cases hcs : calculateStatus (handleFinalizer w.ro).1 w.wl with
     | none =>
@@ -831,6 +831,33 @@ theorem ro_waits_only_for_wakeable (w : World) (r : StepResult) (h : reconcile w
             case other =>
               right; unfold roIllFormed; simp [hph, hreason]
 
+
+/-- **`ro_waits_only_for_wakeable`** (whole reconcile: body + cursor reset) — the statement of `ro_waits_only_for_wakeable_core`
+    for `RV.RolloutSM.reconcile`.  Where the reset fires the phase has changed (Progressing → Terminating / Disabling): the
+    Rollout object is updated, which wakes its reconciler — such a reconcile is not one that rests. -/
+theorem ro_waits_only_for_wakeable (w : World) (r : StepResult) (h : reconcile w = .val r)
+    (hq : (roWakes w r).ro = false) : roRestsOk w r = true := by
+  obtain ⟨r0, h0, rfl⟩ := reconcile_val h
+  cases hx : exitsProgressing w r0 with
+  | false =>
+    rw [resetOnExit_of_not w r0 hx] at hq ⊢
+    exact ro_waits_only_for_wakeable_core w r0 h0 hq
+  | true =>
+    exfalso
+    have hne : normRo (resetOnExit w r0).w.ro ≠ normRo w.ro := by
+      intro he
+      obtain ⟨_, f2, _⟩ := normRo_fields _ _ he
+      rw [resetOnExit_phase] at f2
+      simp only [exitsProgressing, Bool.and_eq_true, Bool.or_eq_true, decide_eq_true_eq] at hx
+      obtain ⟨h1, h2⟩ := hx
+      rw [h1] at f2
+      rcases h2 with h2 | h2 <;> rw [h2] at f2 <;> cases f2
+    unfold roWakes wakesOf at hq
+    simp only [Bool.true_and, Bool.or_eq_false_iff, List.any_eq_false] at hq
+    obtain ⟨_, hev⟩ := hq
+    cases hg : r0.roGone
+    · exact hev .roUpdated (by unfold roStepEvents; simp [hg, hne]) rfl
+    · exact hev .roDeleted (by unfold roStepEvents; simp [hg]) rfl
 
 /-- the contrapositive: outside the waiting classes a reconcile always wakes itself (or the rollout is gone) -/
 theorem ro_not_waiting_wakes_itself (w : World) (r : StepResult) (h : reconcile w = .val r)
